@@ -52,11 +52,16 @@ Env == [B |-> 1, Bb |-> 7919, G |-> [i \in 1 .. 16 |-> 1000 + 37 * i], H |-> [i 
 St == [nv |-> n, V |-> << 4242 >>, pending |-> NoPending, ndefer |-> 0,
        cons |-> << << <<"V", 0, 3>>, <<"1", 0, 5>> >> >>
                  \o [i \in 1 .. n |-> << <<"L", i - 1, 2>>, <<"R", i - 1, 7>>, <<"O", i - 1, 11>>, <<"1", 0, i>> >>]]
-Mega(p) == VerifierAlgebra(Env, St, n, p, ch[1], ch[2], ch[3], ch[4], ch[5], [j \in 1 .. K(n) |-> ch[5 + j]], ch[6 + K(n)]).mega
+MegaR(p, r) == VerifierAlgebra(Env, St, n, p, ch[1], ch[2], ch[3], ch[4], ch[5], [j \in 1 .. K(n) |-> ch[5 + j]], r).mega
+Mega(p) == MegaR(p, ch[6 + K(n)])
+\* the same under the next value of the combiner r (a weight that is a difference of two challenges vanishes for one value of r only)
+MegaAlt(p) == MegaR(p, Fadd(ch[6 + K(n)], 1))
 
 EveryFieldWeighted ==
   /\ \A f \in PointFields : Mega([pf EXCEPT ![f] = Fadd(@, 1)]) # Mega(pf)
-  /\ \A f \in ScalarFields \ {"a", "b"} : Mega([pf EXCEPT ![f] = Fadd(@, 1)]) # Mega(pf)
+  /\ \A f \in {"txb", "eb"} : Mega([pf EXCEPT ![f] = Fadd(@, 1)]) # Mega(pf)
+  \* t_x is weighted w - r: zero when the sampled w and r coincide (probability 1/P) - then it is not zero under r + 1
+  /\ Mega([pf EXCEPT !.tx = Fadd(@, 1)]) # Mega(pf) \/ MegaAlt([pf EXCEPT !.tx = Fadd(@, 1)]) # MegaAlt(pf)
   /\ \A j \in 1 .. K(n) : /\ Mega([pf EXCEPT !.L[j] = Fadd(@, 1)]) # Mega(pf)
                          /\ Mega([pf EXCEPT !.R[j] = Fadd(@, 1)]) # Mega(pf)
   \* a and b enter through the generator scalars: their weight is a group element, non-zero except with probability 1/P
